@@ -190,7 +190,8 @@ CLAIMED = {
              'thread counts 1..16, pool sizes and repetitions, to rounding across flags/formats/layouts/subsets/updates.',
         note='Real thread interleavings are not controlled: the design is proved race-free by TLC and the implementation is '
              'bound to it through outcomes only (a race writing identical values is invisible). Quick tier uses shipped '
-             'assemblers; 1-D, non-square components, updatable inputs and on-demand bounding boxes need compiled forms (thorough).',
+             'assemblers plus one compiled form with an updatable field used at two derivative orders (update histories); 1-D, '
+             'non-square components and on-demand bounding boxes need further compiled forms (thorough).',
         technique='TLA+ process-per-chunk / process-per-outer-index models, all interleavings explored by TLC (with racy negative controls) + outcome conformance of the real assembly across thread counts, formats, layouts, subsets',
         design_ref='3 C08'),
     'C17': dict(
